@@ -20,7 +20,7 @@ PROPS = {
             REGRESS(),
             T("TestCompose", (8, 8000), (16, 150000)),
         ],
-        rule="rapid-generated scenarios: a pool of 1..5 policy instances of all eight kinds, a stack of 0..5 picks with repetition, and a history of executions (8 entry points, scripted outcomes incl. self-cancellation, a caller context that is already cancelled, and blocking beneath an always-fires timeout) one instance in three registering only a random subset of its listeners, interleaved with clock advances and standalone operations on the shared instances; each execution is compared with the sequential reference model; non-trivial = stack length >= 2 and at least one policy took a non-pass-through action in the model (retry, rejection, fallback, breaker transition, cache hit/store, timeout fired, abort, exhaustion); distinct = hash of (kinds and instance indexes in stack order, action kinds, scripts)",
+        rule="rapid-generated scenarios: a pool of 1..5 policy instances of all eight kinds, a stack of 0..5 picks with repetition, and a history of executions (8 entry points, scripted outcomes incl. self-cancellation, a caller context that is already cancelled, and blocking beneath an always-fires timeout) one instance in three registering only a random subset of its listeners, one in five built through its package's convenience constructor (WithDefaults / With / WithResult / WithError / WithFunc / WithDelay / SmoothWithMaxRate / Bursty), one Get-style execution in six going through the package-level failsafe.Get* functions, interleaved with clock advances and standalone operations on the shared instances; each execution is compared with the sequential reference model; non-trivial = stack length >= 2 and at least one policy took a non-pass-through action in the model (retry, rejection, fallback, breaker transition, cache hit/store, timeout fired, abort, exhaustion); distinct = hash of (kinds and instance indexes in stack order, action kinds, scripts)",
         assumptions=[
             "inputs restricted to the documented domains (DESIGN.md R2); always-fires timeouts only with functions that block until cancelled and no bulkhead/limiter beneath them",
             "cases the statement leaves open are discarded or checked weakly and counted: abort on the exhausting attempt (L1), result-abort on an error outcome (L5), breaker grey zone / tainted epochs (L3, L4), scripts that do not terminate",
@@ -64,7 +64,7 @@ COMPOSE_ASSUMPTIONS = [
     "inputs restricted to the documented domains (DESIGN.md R2); always-fires timeouts only with functions that block until cancelled and no bulkhead/limiter beneath them",
     "cases the statement leaves open are discarded or checked weakly and counted: abort on the exhausting attempt (L1), result-abort on an error outcome (L5), breaker grey zone / tainted epochs (L3, L4), OnCacheMiss without a key (L2), scripts that do not terminate",
 ]
-COMPOSE_RULE = "rapid-generated scenarios (pool of policy instances, stack with repetition, history of executions over the 8 entry points with scripted outcomes incl. self-cancellation, a caller context that is already cancelled, and blocking beneath an always-fires timeout, one instance in three registering only a random subset of its listeners, interleaved with clock advances and standalone operations), compared with the sequential reference model after every step; distinct = hash of (kinds and instance indexes in stack order, action kinds, scripts); non-trivial = "
+COMPOSE_RULE = "rapid-generated scenarios (pool of policy instances, stack with repetition, history of executions over the 8 entry points with scripted outcomes incl. self-cancellation, a caller context that is already cancelled, and blocking beneath an always-fires timeout, one instance in three registering only a random subset of its listeners, one in five built through its package's convenience constructor (WithDefaults / With / WithResult / WithError / WithFunc / WithDelay / SmoothWithMaxRate / Bursty), one Get-style execution in six going through the package-level failsafe.Get* functions, interleaved with clock advances and standalone operations), compared with the sequential reference model after every step; distinct = hash of (kinds and instance indexes in stack order, action kinds, scripts); non-trivial = "
 
 PROPS.update({
     "C10": dict(pkg="./props/c10_fallback", tests=[REGRESS(), T("TestFallback", (8, 6000), (16, 100000))],
